@@ -6,7 +6,7 @@ import re
 import typing as t
 
 from ..cfg import CFG, Node, cfg_of, node_exprs, walk_no_nested
-from ..family import PI, find_subcalls, subconv_attrs, walk_with_bindings
+from ..family import PI, family, find_subcalls, subconv_attrs, walk_with_bindings
 from ..model import AnalysisError, FuncInfo, Model, unparse
 from ..norm import Normalizer
 from ..report import RuleResult
@@ -394,4 +394,65 @@ def rule_c12_r5(model: Model) -> RuleResult:
         r.ok()
     else:
         r.fail(f.qualname, f"keywords {kws}", f.loc(c), "tag / external / handlers are not forwarded to the tagged-union converter")
+    return r
+
+
+def rule_c12_r6(model: Model) -> RuleResult:
+    """C12 / C05: a tagged union keeps its layout when it is itself a member of a union (Optional[...] of it)."""
+    r = RuleResult('C12-R6', "the writer of an enclosing union can select a tagged-union member for the values that member serialises "
+                             "(otherwise the tag layout is lost under Optional[...])", floor=1)
+    uw = model.func(f'{UNION}.into_data')
+    ucfg = cfg_of(model, uw)
+    unz = Normalizer(model, uw, ucfg)
+    ucls = model.cls(UNION)
+    probes = [sc for sc in find_subcalls(model, ucls, uw, unz, ucfg, subconv_attrs(model, ucls)) if sc.method == 'try_convert' and sc.arg == 'VAL']
+    r.analysed.add(uw.qualname)
+    if not probes:
+        r.instances += 1
+        r.ok()
+        r.note("the union writer does not select members by parsing the typed value; nothing to check")
+        return r
+    for cls in family(model):
+        if cls.qualname == UNION or not model.is_subclass(cls.qualname, UNION):
+            continue
+        w = cls.methods.get('into_data')
+        rd_ = cls.methods.get('try_convert')
+        if w is None or rd_ is None:
+            continue
+        wcfg = cfg_of(model, w)
+        wnz = Normalizer(model, w, wcfg)
+        # the writer reads attributes of the value (an object, not interchange data) ...
+        reads_attrs = False
+        for n in wcfg.live_nodes():
+            for root in node_exprs(n):
+                for x in walk_no_nested(root):
+                    if isinstance(x, ast.Call) and isinstance(x.func, ast.Name) and x.func.id == 'getattr' and x.args and wnz.expr(x.args[0], n) == 'VAL':
+                        reads_attrs = True
+        if not reads_attrs:
+            continue
+        r.instances += 1
+        r.analysed.update([w.qualname, rd_.qualname])
+        # ... while every accepting exit of its reader lies behind a mapping / sequence gate on the same value
+        rcfg = cfg_of(model, rd_)
+        rnz = Normalizer(model, rd_, rcfg)
+        gates = []
+        for a in rcfg.nodes:
+            if a.kind == 'cond' and a.ast is not None:
+                text, pos = rnz.literal(a.ast, a)
+                if re.match(r'^pane\.converters\.data_is_(mapping|sequence)\(VAL\)$', text):
+                    gates.append((a, 'T' if pos else 'F'))
+        rets = [n for n in rcfg.live_nodes() if n.kind == 'return' and n.ast is not None and n.ast.value is not None]
+        gated = bool(rets) and all(any(rcfg.edge_dominates(a, lb, n) for (a, lb) in gates) for n in rets)
+        r.sample({'member class': cls.name, 'writer reads attributes of the value': reads_attrs, 'reader accepts interchange data only': gated,
+                  'union writer selects by': f"{probes[0].recv}.try_convert(VAL)"})
+        if gated:
+            r.fail(cls.qualname, "writer of an enclosing union never selects a tagged member for a variant instance", uw.loc(probes[0].node.ast),
+                   "UnionConverter.into_data picks the member whose try_convert accepts the typed value; the tagged union's try_convert accepts "
+                   "mappings only, so for a dataclass variant it is never picked and the value is written by its runtime type: "
+                   "into_data(A(), Optional[Annotated[Union[A, B], Tagged('kind', external=True)]]) gives {'kind': 'a', ...} (internal layout), "
+                   "which from_data of the same type rejects")
+        else:
+            r.ok()
+    if r.instances == 0:
+        raise AnalysisError(f"{uw.loc()}: no union subclass with an attribute-reading writer found (TaggedUnionConverter vanished?)")
     return r
